@@ -5,7 +5,7 @@
 // the DEFAULT when the pattern or the group did not take part, NULL when the text is not a literal of the type, BOOLEAN =
 // the group's existence, TRIM on TEXT, arrays and TIMESTAMPs position by position from their listed groups (a part that is
 // out of range gives no timestamp), never a value from another group or line, never truncated or wrapped.
-// Grid: 21 column definitions over 3 capture patterns, a split pattern and an inline pattern x 55 lines (partial matches,
+// Grid: 23 column definitions over 3 capture patterns, a split pattern and an inline pattern x 65 lines (partial matches,
 // no match, empty groups, 64-bit extremes and beyond, out-of-range date parts, two matches on one line, surrounding blanks),
 // each line alone and all lines as one file (no value leaks from another line).
 // Also: INTERVAL literals (exactly hours:minutes:seconds), month names in a day / month-name / year TIMESTAMP (only a month
@@ -69,6 +69,13 @@ fn columns() -> Vec<Col> {
         Col { def: "dmy[3], dmy[2], dmy[1] => v TIMESTAMP", value: |l| match caps(r"on ([0-9]+) ([A-Za-z]+) ([0-9]+)", l) { Some(c) => {
               let m = match c[2].as_deref().unwrap().to_lowercase().as_str() { "jan" => 1, "feb" => 2, "mar" => 3, "apr" => 4, "may" => 5, "jun" | "june" => 6, "jul" | "july" => 7, "aug" => 8, "sep" | "sept" => 9, "oct" => 10, "nov" => 11, "dec" => 12, _ => 0 };
               if m == 0 { J::Null } else { timestamp(&[c[3].clone(), Some(m.to_string()), c[1].clone()]) } }, None => J::Null } },
+        // seven parts: the last one is milliseconds, or microseconds when the column says MICROSECONDS
+        Col { def: "f7[1], f7[2], f7[3], f7[4], f7[5], f7[6], f7[7] => v TIMESTAMP", value: |l| match caps(r"at ([0-9]+)-([0-9]+)-([0-9]+)T([0-9]+):([0-9]+):([0-9]+)\.([0-9]+)", l) { Some(c) => {
+              let base = timestamp(&c[1..7]); let frac = c[7].as_deref().unwrap().parse::<u64>().ok();
+              match (base, frac) { (J::String(b), Some(f)) if f < 1000 => json!(format!("{}.{:03}", &b[..19], f)), _ => J::Null } }, None => J::Null } },
+        Col { def: "f7[1], f7[2], f7[3], f7[4], f7[5], f7[6], f7[7] => v TIMESTAMP MICROSECONDS", value: |l| match caps(r"at ([0-9]+)-([0-9]+)-([0-9]+)T([0-9]+):([0-9]+):([0-9]+)\.([0-9]+)", l) { Some(c) => {
+              let base = timestamp(&c[1..7]); let frac = c[7].as_deref().unwrap().parse::<u64>().ok();
+              match (base, frac) { (J::String(b), Some(f)) if f < 1_000_000 => json!(format!("{}.{:03}", &b[..19], f / 1000)), _ => J::Null } }, None => J::Null } },
         Col { def: "csv[1] => w TEXT, csv[2], csv[3] => v TEXT[]", value: |l| { let f = split_fields(l); let e: Vec<J> = vec![as_text(f.get(2).cloned()), as_text(f.get(3).cloned())]; if e.iter().all(|x| x.is_null()) { J::Null } else { J::Array(e) } } },
         Col { def: "csv[1] => w TEXT, csv[3] => v TEXT", value: |l| as_text(split_fields(l).get(3).cloned()) },
         Col { def: "csv[3] => v TEXT, csv[1] => w TEXT", value: |l| as_text(split_fields(l).get(3).cloned()) },
@@ -78,7 +85,7 @@ fn columns() -> Vec<Col> {
 }
 
 fn definition(col: &str) -> String {
-    format!("CREATE TABLE t(line = '{}', date = '{}', pad = '{}', csv = split ',', ymd = split '/', iv = 'i=(\\\\S*)', dmy = 'on ([0-9]+) ([A-Za-z]+) ([0-9]+)', 'always=(.*)|(.*)' => anchor TEXT DEFAULT 'row', {});",
+    format!("CREATE TABLE t(line = '{}', date = '{}', pad = '{}', csv = split ',', f7 = 'at ([0-9]+)-([0-9]+)-([0-9]+)T([0-9]+):([0-9]+):([0-9]+)\\\\.([0-9]+)', ymd = split '/', iv = 'i=(\\\\S*)', dmy = 'on ([0-9]+) ([A-Za-z]+) ([0-9]+)', 'always=(.*)|(.*)' => anchor TEXT DEFAULT 'row', {});",
         P_MAIN.replace('\\', "\\\\"), P_DATE.replace('\\', "\\\\"), P_PAD.replace('\\', "\\\\"), col)
 }
 
@@ -98,6 +105,8 @@ fn verif_grid() {
         "d=2020-02-29", "d=2021-02-29", "d=2020-13-01", "d=2020-00-10", "d=2020-4294967297-01", "d=2020-12-31 23:59:59", "d=2020-12-31 24:00:00", "d=2020-01-01 00:00:60", "d=2020-06-31",
         "t=[  padded  ]", "t=[]", "t=[\tx ]", "t=[inner  space]",
         "a,5,c", "a,,c", ",9223372036854775807", "one", "a, 5 ,c", "a,b,c,d,e", "p,q,r", "2020/02/29", "2020/13/01/x", "2021/2/3",
+        "at 2020-05-06T07:08:09.5", "at 2020-05-06T07:08:09.123", "at 2020-05-06T07:08:09.999", "at 2020-05-06T07:08:09.1000", "at 2020-05-06T07:08:09.123456", "at 2020-05-06T07:08:09.999999",
+        "at 2020-05-06T07:08:09.1000000", "at 2020-05-06T07:08:09.987654321", "at 2020-05-06T07:08:09.4294967297", "at 2020-02-30T07:08:09.1",
         "i=1:2:3", "i=01:02:03:24", "i=10:20:30:40:50:60", "i=01:02:03:", "i=1:2", "i=:1:2", "i=25:61:61", "i=x:1:2", "i=0:0:0",
         "on 5 Mar 2020", "on 5 Marker 2020", "on 5 Junk 2021", "on 31 dec 1999", "on 1 Decoder 2020", "on 9 Sept 2020", "on 9 September 2020", "on 7 MAY 2020", "on 7 Maybe 2020",
     ];
